@@ -261,6 +261,7 @@ impl Engine for C13 {
         let mut prev_today: Option<(Date, bool)> = None;
         let mut fs_fault_seen_before = false;
         let mut after_kill_dates: Vec<Date> = vec![];
+        let mut last_now: Option<i64> = None;
         if sc.clock_tz.is_some() {
             st.bump("probe.history_with_today_from_the_system_clock");
         }
@@ -335,6 +336,30 @@ impl Engine for C13 {
             if run.app_path && run.app_files > 1 {
                 st.bump("probe.app_path_several_files_one_loader");
             }
+            // the clock never runs backwards within a history: a later run of the same day starts
+            // 30 s .. 1.5 h after the previous one (file modification times are on this clock)
+            let now_shift = {
+                let mut probe = crate::proc::ProcEnv::new(run.hash_seed, today);
+                probe.clock_tz_hours_west = sc.clock_tz;
+                let cand = probe.now_unix();
+                // ... but never past the end of the run's own (local) day
+                let day_end = cand - probe.now_unix_secs_into_local_day() + 86_399;
+                match last_now {
+                    Some(l) if cand <= l => (l + 30 + (run.hash_seed % 5_400) as i64).min(day_end).max(cand) - cand,
+                    _ => 0,
+                }
+            };
+            {
+                let mut probe = crate::proc::ProcEnv::new(run.hash_seed, today);
+                probe.clock_tz_hours_west = sc.clock_tz;
+                probe.now_shift = now_shift;
+                if let Some(l) = last_now {
+                    if probe.now_unix() - l < 3_600 {
+                        st.bump("probe.run_within_an_hour_of_the_previous_run");
+                    }
+                }
+                last_now = Some(probe.now_unix());
+            }
             let disk_before_run = if run.kill_seed.is_some() { Some(crate::interpose::with_world(|w| w.fs.disk.clone())) } else { None };
             let mut fs_faults = run.fs_faults.clone();
             if let Some(k) = fs_faults.enospc_before_end {
@@ -358,6 +383,7 @@ impl Engine for C13 {
                     net_faults: run.net_faults.clone(),
                     server_today: None,
                     clock_tz: sc.clock_tz,
+                    now_shift,
                     fs_faults: dry_faults,
                     knobs: Knobs { max_write: sc.max_write, max_read: sc.max_read, eintr_every: sc.eintr_every },
                     hash_seed: run.hash_seed,
@@ -387,6 +413,7 @@ impl Engine for C13 {
                 net_faults: run.net_faults.clone(),
                 server_today: None,
                 clock_tz: sc.clock_tz,
+                now_shift,
                 fs_faults: fs_faults.clone(),
                 knobs: Knobs { max_write: sc.max_write, max_read: sc.max_read, eintr_every: sc.eintr_every },
                 hash_seed: run.hash_seed,
